@@ -120,7 +120,9 @@ def run(tier, deadline):
     nmax = "130" if tier == "quick" else "700"
     calls2 = 0
     def two(lib):
-        return lib, sh([ip, nmax], env=dict(os.environ, CAT_LIB=vbuild.build(lib)), timeout=max(30, deadline - (time.time() - t0)))
+        e2 = dict(os.environ, CAT_LIB=vbuild.build(lib))
+        if lib in ("prod", "O2"): e2["C18_HUGE"] = "1"        # sizes around 4 GiB (about 4 s each)
+        return lib, sh([ip, nmax], env=e2, timeout=max(30, deadline - (time.time() - t0)))
     with ThreadPoolExecutor(8) as ex:
         for lib, r in ex.map(two, libs2):
             if r.returncode != 0: internal.append(f"inplace {lib}: exit {r.returncode} {r.stderr[-300:]}"); continue
@@ -137,7 +139,7 @@ def run(tier, deadline):
     def confirm(v):
         kv = dict(l.split("=", 1) for l in v.replay_text.strip().splitlines()); return replay(kv, quiet=True) == 1
     cov = {"evaluations": nrun + calls2, "distinct_nontrivial": materialised + calls2,
-           "rule": "part 1: " + str(nscen) + " caller programs (memzero_s with constant sizes 24/32/64/65/200, with a run-time size, memset_s with zero and 0x5a and a run-time n, the 16- and 32-bit variants, strzero_s on a password, a key at an odd offset in a record, heap blocks erased and then freed, static objects; three controls that erase nothing) derive a secret in place from run-time data, use it through run-time indices, erase it and never read it again; each is compiled in every configuration of " + ("gcc {O0,O2,O3} x {shared, static archive, LTO} + three clang configurations" if tier == "quick" else "{gcc,clang} x {O0,O1,O2,O3,Os} x {shared O0 library, static archives built by gcc -O2/-O3 and clang -O2/-O3 (also cross-compiler), link-time optimisation against library IR built at -O2 and -O3}") + " and run on a private stack; afterwards the whole private stack, the freed heap block (inside the executable's own free) and the executable's writable segments are searched for the secret. Violation: 17 or more consecutive secret bytes on the stack while no run of n fill bytes exists (stack), any 8 secret bytes or a non-fill byte in the freed block (heap), 8 secret bytes in the writable segments (static). Every control must be found, otherwise the configuration is reported as an internal error. part 2: memset_s, memzero_s, memset16_s, memset32_s, memzero16_s, memzero32_s, strzero_s for every n in 1.." + nmax + ", every dest offset 0..15 (multiples of the element size), fill values {0, 0x5a.., a mixed pattern}, dmax = n and n+3, plus sizes around 256/512/1024/2000, against libraries " + ", ".join(libs2) + ": return EOK, every addressed byte holds the fill, every other byte of a 4 KiB arena is unchanged",
+           "rule": "part 1: " + str(nscen) + " caller programs (memzero_s with constant sizes 24/32/64/65/200, with a run-time size, memset_s with zero and 0x5a and a run-time n, the 16- and 32-bit variants, strzero_s on a password, a key at an odd offset in a record, heap blocks erased and then freed, static objects; three controls that erase nothing) derive a secret in place from run-time data, use it through run-time indices, erase it and never read it again; each is compiled in every configuration of " + ("gcc {O0,O2,O3} x {shared, static archive, LTO} + three clang configurations" if tier == "quick" else "{gcc,clang} x {O0,O1,O2,O3,Os} x {shared O0 library, static archives built by gcc -O2/-O3 and clang -O2/-O3 (also cross-compiler), link-time optimisation against library IR built at -O2 and -O3}") + " and run on a private stack; afterwards the whole private stack, the freed heap block (inside the executable's own free) and the executable's writable segments are searched for the secret. Violation: 17 or more consecutive secret bytes on the stack while no run of n fill bytes exists (stack), any 8 secret bytes or a non-fill byte in the freed block (heap), 8 secret bytes in the writable segments (static). Every control must be found, otherwise the configuration is reported as an internal error. part 2: memset_s, memzero_s, memset16_s, memset32_s, memzero16_s, memzero32_s, strzero_s for every n in 1.." + nmax + ", every dest offset 0..15 (multiples of the element size), fill values {0, 0x5a.., a mixed pattern}, dmax = n and n+3, plus sizes around 256/512/1024/2000, plus (libraries prod and O2) memset_s/memzero_s with n of 1 GiB, 4 GiB-1, 4 GiB and 4 GiB+1 MiB and the object size known: refused or really erased (samples every 65521 bytes), against libraries " + ", ".join(libs2) + ": return EOK, every addressed byte holds the fill, every other byte of a 4 KiB arena is unchanged",
            "samples": ["gcc-O2-lto-ltogcc strzero_32", "clang-O3-static-clangO2 memzero_64", "gcc-O3-shared-prod heap_memset_s_48", "inplace memset_s n=13 offset=3 value=0x5a dmax=n+3"],
            "build_configurations": len(cfgs), "scenarios_per_configuration": nscen, "stack_scenarios_with_the_fill_visible": materialised,
            "callers_without_a_call_to_the_library_in_their_object_code": {k: len(v) for k, v in elided.items()}, "inplace_calls": calls2}
